@@ -23,8 +23,8 @@ def main(ctx):
     quick = ctx.quick
     if quick:
         sources = list(sched.QUICK_SOURCES)
-        configs = [(1, 0), (4, ctx.seed * 7 + 1), (16, ctx.seed * 7 + 2), (16, 0)]
-        sim_sources, sim_n, slice_max, slice_timeout, slice_sources = 3, 40, 9, 120, 3
+        configs = [(1, 0), (4, ctx.seed * 7 + 1), (16, ctx.seed * 7 + 2)]
+        sim_sources, sim_n, slice_max, slice_timeout, slice_sources = 2, 25, 9, 300, 3
     else:
         fx = [f for f in common.fixtures() if not f.endswith(".ufo") or "/" not in f]
         sources = list(sched.QUICK_SOURCES) + [(f, []) for f in fx if f not in [s for s, _ in sched.QUICK_SOURCES]]
